@@ -352,6 +352,38 @@ pub fn build_world(seed: u64, tier: Tier) -> Result<World, String> {
         let s = cfg.build(&pats)?;
         searchers.push(Searcher::Ac { cfg, pats, s });
     }
+    // one searcher per prefilter variant, so that every prefilter implementation
+    // (each could hide state of its own) is shared between threads
+    if !tiny {
+        let wanted = ["Memmem", "StartBytesOne", "StartBytesTwo", "StartBytesThree", "RareBytesOne", "RareBytesTwo", "RareBytesThree", "Packed"];
+        let mut found: Vec<Option<(Vec<Vec<u8>>, bool, Kind)>> = vec![None; wanted.len()];
+        for _ in 0..600 {
+            if found.iter().all(|f| f.is_some()) {
+                break;
+            }
+            let (p, ci) = prefilter_patterns(&mut rng);
+            if p.iter().map(|x| x.len()).sum::<usize>() > 300 {
+                continue;
+            }
+            for kind in [Kind::Standard, Kind::LeftmostFirst] {
+                let v = Cfg::new(Imp::LowNnfa, kind).ci(ci).prefilter_variant(&p);
+                if let Some(i) = wanted.iter().position(|w| *w == v) {
+                    if found[i].is_none() {
+                        found[i] = Some((p.clone(), ci, kind));
+                    }
+                }
+            }
+        }
+        let imps = [Imp::TopAuto, Imp::TopCnfa, Imp::LowNnfa, Imp::TopDfa, Imp::LowCnfa, Imp::TopNnfa, Imp::LowDfa, Imp::TopAuto];
+        for (i, f) in found.into_iter().enumerate() {
+            if let Some((pats, ci, kind)) = f {
+                let cfg = Cfg::new(imps[i], kind).ci(ci).sk(SK::Both);
+                let s = cfg.build(&pats)?;
+                lists.push((pats.clone(), ci));
+                searchers.push(Searcher::Ac { cfg, pats, s });
+            }
+        }
+    }
     // packed searchers used directly (unsafe SIMD code shared across threads)
     let ppats = gen::packed_patterns_with(&mut rng, None, if tiny { 6 } else { 40 });
     let variants: &[Variant] = if tiny { &[Variant::Slim128, Variant::Fat256] } else { &[Variant::Slim128, Variant::Slim256, Variant::Fat256, Variant::RabinKarp] };
